@@ -58,6 +58,12 @@ def offsets(table):
     return offs, o
 
 
+def rand_dtype(rng):
+    """float64 / complex128 mostly, single precision sometimes (fills are small integers: exact in every dtype)"""
+    r = rng.random()
+    return "float64" if r < 0.45 else "complex128" if r < 0.75 else "complex64" if r < 0.9 else "float32"
+
+
 def dense_on(x, tables, dtype=None):
     """Dense form of `x` over the given per-axis charge tables (supersets of x's own):
     charges sorted per axis, pending fermionic signs multiplied in, absent = zero."""
@@ -129,6 +135,9 @@ def compare_with_dense(res, full, full_tables, exp_duals, exp_charge):
     got = dense_of(res)
     if got.shape != sub.shape or not np.array_equal(got, sub):
         fails.append(("values", f"dense(result) != dense contraction on the kept charges (shape {got.shape} vs {sub.shape})"))
+    bad_dt = sorted({str(np.asarray(b).dtype) for b in res.blocks.values()} - {str(full.dtype)})
+    if bad_dt:
+        fails.append(("dtype", f"result blocks have dtype {bad_dt}, the dense contraction has {full.dtype}"))
     if not dz:
         fails.append(("dropped_nonzero", "result index dropped a charge whose dense rows are not all zero"))
     return fails
@@ -398,10 +407,10 @@ def rand_pair(
         axes_a = list(range(na - k, na))
         axes_b = list(range(k))
     if dtype is None:
-        dtype = "complex128" if rng.random() < 0.4 else "float64"
+        dtype = rand_dtype(rng)
     dta = dtb = dtype
     if rng.random() < 0.1:
-        dtb = "complex128" if dta == "float64" else "float64"
+        dtb = {"float64": "complex128", "complex128": "float64", "float32": "complex64", "complex64": "float32"}[dta]
     ia = [rand_index_spec(rng, sym, max_charges, sizes) for _ in range(na)]
     ib = [rand_index_spec(rng, sym, max_charges, sizes) for _ in range(nb)]
     variant = "same"
